@@ -33,17 +33,49 @@ def d1(ctx):
     head = loops[0]
     starts = [m for m, l in head.succ if l == "t"]
     queue_nodes = [n for n in cfg.stmt_nodes() for c in n.calls() if isinstance(c.func, ast.Attribute) and c.func.attr in ("append", "extend", "appendleft") and dotted(c.func.value) == dotted(head.ast)]
-    # name of the depth variable inside the loop: third element of the popped tuple
+    # the work-list element: a 3-tuple or a record (NamedTuple / dataclass); its depth component is the one that is
+    # initialised from the `depth` parameter
+    du = DefUse(cfg)
+    from ..dataflow import origins, _record_arg, Origin
+    p_depth = fi.params[2] if len(fi.params) > 2 else "depth"
+
+    def components(e, node):
+        """[(selector, expr)] of a work-list element expression: tuple display or record constructor call."""
+        if isinstance(e, ast.Tuple):
+            return list(enumerate(e.elts))
+        if isinstance(e, ast.Call):
+            fields = ctx._record_fields(fi, node, e)
+            if fields:
+                return [(f_, _record_arg(du, Origin("expr", e, (), node), f_)) for f_ in fields if _record_arg(du, Origin("expr", e, (), node), f_) is not None]
+        return []
+
+    sel = None
+    for nd in cfg.stmt_nodes():
+        if nd.id in cfg.reachable([m for m, l in head.succ if l == "t"], follow_exc=False) and nd is not head:
+            continue
+        for e in nd.exprs():
+            for x in ast.walk(e):
+                for s_, ce in components(x, nd):
+                    oc = origins(du, nd, ce)
+                    if oc and all(o.kind == "param" and o.name == p_depth and not o.path for o in oc):
+                        sel = s_
+    if sel is None:
+        raise AnalysisError("traverse_resource: the initial work-list element carrying the `depth` argument was not found")
+    pop_node = None
     dvar = None
     for n in cfg.stmt_nodes():
-        if n.kind == "stmt" and isinstance(n.ast, ast.Assign) and isinstance(n.ast.targets[0], ast.Tuple) and len(n.ast.targets[0].elts) == 3 \
-                and isinstance(n.ast.value, ast.Call) and (dotted(n.ast.value.func) or "").endswith(("popleft", "pop")):
-            dvar = n.ast.targets[0].elts[2].id
-            pop_node = n
-    if dvar is None:
-        raise AnalysisError("traverse_resource: (href, resource, depth) = todo.popleft() not found")
-    from .common import const_walk
-    fold = lambda e_: ctx.P.try_fold(fi.module, e_)
+        if n.kind == "stmt" and isinstance(n.ast, ast.Assign) and isinstance(n.ast.value, ast.Call) and (dotted(n.ast.value.func) or "").endswith(("popleft", "pop")):
+            tg = n.ast.targets[0]
+            if isinstance(tg, ast.Tuple) and isinstance(sel, int) and sel < len(tg.elts) and isinstance(tg.elts[sel], ast.Name):
+                dvar, pop_node = tg.elts[sel].id, n
+            elif isinstance(tg, ast.Name):
+                dvar, pop_node = "%s.%s" % (tg.id, sel) if isinstance(sel, str) else None, n
+                if dvar is None:
+                    pop_node = None
+    if dvar is None or pop_node is None:
+        raise AnalysisError("traverse_resource: the statement that pops the next (href, resource, depth) element was not found")
+    from .common import const_walk, folder
+    fold = folder(ctx, fi)
     after_pop = [m for m, l in pop_node.succ if l != "exc"]
     for d in ("0", "1", "infinity"):
         # constant propagation from the pop with depth = d (assignments, helper returns and tests on it are followed)
@@ -63,14 +95,16 @@ def d1(ctx):
             got = set()
             for q in queued:
                 c = [c for c in q.calls() if isinstance(c.func, ast.Attribute) and c.func.attr in ("append", "extend", "appendleft")][0]
-                tup = [x for a_ in c.args for x in ast.walk(a_) if isinstance(x, ast.Tuple) and len(x.elts) == 3]
+                comps = [dict(components(x, q)) for a_ in c.args for x in ast.walk(a_)]
+                comps = [cm for cm in comps if sel in cm]
                 for env in reached[q.id]:
-                    if not tup:
+                    if not comps:
                         got.add("?")
-                    for x in tup:
-                        e3 = x.elts[2]
-                        v = e3.value if isinstance(e3, ast.Constant) else env.get(e3.id, "?") if isinstance(e3, ast.Name) else "?"
-                        got.add(v)
+                    for cm in comps:
+                        e3 = cm[sel]
+                        from .common import _cval, _UNKNOWN
+                        v = _cval(e3, env, fold)
+                        got.add("?" if v is _UNKNOWN else v)
             obs.append(ctx.ob(bool(queued) and got == {want} and not raises, fi.qualname, where(fi, head),
                               "Depth %s: members queued with depth %s" % (d, want), "members are queued with depth %s" % sorted(map(repr, got)),
                               "with Depth: %s the members are %s" % (d, "not queued at all" if not queued else "queued with depth %s instead of %r" % (sorted(map(repr, got)), want))))
@@ -135,14 +169,46 @@ def q1(ctx):
     ch = ctx.func(WD + ".create_href")
     obs.append(ctx.ob(not others and any(f.qualname == ch.qualname for f, n in makers), ch.qualname, ch.where, "only create_href creates {DAV:}href",
                       "%d creation site(s), all in create_href" % len(makers), "{DAV:}href elements are created in %s" % sorted({f.short for f, n in others})))
-    # quotes exactly once, on the final string
+    # quotes exactly once, on the final string: on every path the element text is assigned exactly once, the value is
+    # quote(X), and nothing X is built from was quoted before
     cfg = ctx.cfg(ch)
+    du = DefUse(cfg)
+    from ..dataflow import origins
     sets = [n for n in cfg.stmt_nodes() if n.kind == "stmt" and isinstance(n.ast, ast.Assign) and any(isinstance(t, ast.Attribute) and t.attr == "text" for t in n.ast.targets)]
-    nq = [c for n in walk_local(ch.node) if isinstance(n, ast.Call) for c in [n] if (dotted(c.func) or "").endswith("quote")]
-    ok = len(sets) == 1 and len(nq) == 1 and isinstance(sets[0].ast.value, ast.Call) and sets[0].ast.value is nq[0] \
-        and isinstance(nq[0].args[0], ast.Name) and nq[0].args[0].id == ch.params[0]
+
+    def is_quote(c):
+        return isinstance(c, ast.Call) and (dotted(c.func) or "").split(".")[-1] in ("quote", "quote_plus")
+
+    def unquoted(node, e, depth=0) -> bool:
+        if depth > 8:
+            return False
+        for o in origins(du, node, e):
+            v = o.leaf
+            if o.kind == "param":
+                continue
+            if v is None or is_quote(v):
+                return False
+            if isinstance(v, ast.Call):
+                if not all(unquoted(o.node, a_, depth + 1) for a_ in list(v.args) + [k.value for k in v.keywords]):
+                    return False
+        return True
+
+    once = bool(sets) and cfg.normal_completion_dominates(sets, cfg.exit) and \
+        not any(t.id in cfg.after_normal(s_, follow_exc=False) for s_ in sets for t in sets)
+    quoted_once = True
+    nq = 0
+    for s_ in sets:
+        os_ = origins(du, s_, s_.ast.value)
+        for o in os_:
+            if not (o.kind == "expr" and not o.path and is_quote(o.leaf) and o.leaf.args):
+                quoted_once = False
+                continue
+            nq += 1
+            if not unquoted(o.node, o.leaf.args[0]):
+                quoted_once = False
+    ok = once and quoted_once and nq >= 1
     obs.append(ctx.ob(ok, ch.qualname, ch.where, "create_href quotes the final href exactly once", "et.text = urllib.parse.quote(href)",
-                      "create_href does not set the element text to quote(<final href>) exactly once (%d quote calls, %d text assignments)" % (len(nq), len(sets))))
+                      "create_href does not set the element text to quote(<final href>) exactly once (%d quote calls, %d text assignments)" % (nq, len(sets))))
     rh = ctx.func(WD + ".read_href_element")
     nu = [n for n in walk_local(rh.node) if isinstance(n, ast.Call) and (dotted(n.func) or "").endswith("unquote")]
     obs.append(ctx.ob(len(nu) == 1, rh.qualname, rh.where, "read_href_element unquotes exactly once", "one unquote", "read_href_element applies unquote %d times" % len(nu)))
